@@ -6,7 +6,12 @@
    the pandas mini-model (DF/Frames.v) applied to `concat (firstn k bs)`.  `repaired` / `as_found` select the
    behaviour of Mean's scalar `counts = 1` branch and of Var's Python-int 0/0 (see DF/Agg.v). *)
 From Coq Require Import List ZArith QArith Qcanon Bool Arith.
-From SZ Require Import DF.Frames DF.Agg DF.GroupBy DF.AggProofs DF.GroupByProofs DF.AggExpr.
+From SZ Require Import DF.Frames.
+From SZ Require Import DF.Agg.
+From SZ Require Import DF.GroupBy.
+From SZ Require Import DF.AggProofs.
+From SZ Require Import DF.GroupByProofs.
+From SZ Require Import DF.AggExpr.
 Import ListNotations.
 Close Scope Qc_scope. Close Scope Q_scope. Close Scope Z_scope. Open Scope nat_scope.
 
